@@ -370,6 +370,12 @@ Example C03_example_loop :
   n_tbl (fst r) = [(ex_A, [(ex_peer 0, {| hv_payload := ex_hb; hv_ts := 5 |})])].
 Proof. vm_compute. repeat apply conj; reflexivity. Qed.
 
+(* the hypothesis of C03_loop_no_set is satisfiable by a history in which things do arrive: the first three events of ex_loop *)
+Example C03_example_loop_no_set :
+  (forall ks, ~ In (LSetGS ks) (firstn 3 ex_loop)) /\
+  loop_run ex_recover ex_keccak ex_dec (fun _ => true) false ex_self ninit (firstn 3 ex_loop) = (ninit, [[]; []; [OutObs [x01]]]).
+Proof. split; [intros ks [H|[H|[H|[]]]]; discriminate H|vm_compute; reflexivity]. Qed.
+
 Print Assumptions C03_obs_invalid_dropped.
 Print Assumptions C03_obs_effect_only_if_valid.
 Print Assumptions C03_obs_valid_recorded.
